@@ -20,6 +20,7 @@ RULE = ("every triple (n+, n-, N) with N <= Nmax (quick 60, thorough 140) plus, 
         "spelling; every 5th triple additionally as 2 more arrangements; distinct = distinct triple; non-trivial = all")
 RULE += ("; added after the mutation rounds: a share typed with blanks / line breaks / lower case; history salt; every region asked twice; the first cases of every shard are judged again at its end")
 RULE += ("; round 5: uncharged and weakly charged chains whose neutral residues come from few-letter alphabets (ACGT, ACGTN, GS, ...)")
+RULE += ("; round 8: a third of the realisations are objects obtained by another route (file with various layouts, pickle, copy, typed text, backend object)")
 EXHAUSTIVE = {"quick": True, "thorough": True}
 EXHAUSTIVE_NOTE = {"quick": "all (n+, n-, N) with N <= 60 (39,710 triples)", "thorough": "all (n+, n-, N) with N <= 140"}
 ASSUMPTIONS = [
